@@ -384,6 +384,14 @@ func (c *Ctx) ord2() {
 			}
 			// DUP
 			wantDup := ltSubmit != nil && *ltSubmit && isPublish != nil && *isPublish
+			// the stored record may carry the flag already (after a restart)
+			for _, cm := range assumed(p, 0, last) {
+				if and, ok := strip(cm.X).(*ssa.BinOp); ok && and.Op == token.AND && cm.Op == token.NEQ {
+					if k, ok := intConst(and.Y); ok && k == c.constInt("dupeFlag") && isK(cm.Y, 0) {
+						wantDup = false
+					}
+				}
+			}
 			switch {
 			case iDupStore >= 0 && !wantDup:
 				dup.fail(p, iDupStore, "DUP flag set on a path that has not established seqNo < submitN and packet type PUBLISH")
